@@ -454,6 +454,9 @@ func v28val(tag string, kind, maxLen int) (Value, v28m) {
 		}
 		coef := rt.U64Range(tag+".coef", v28coefMin, v28coefMax)
 		exp := int(rt.I8(tag + ".exp"))
+		// (exponents 1..15 make Hash divide the coefficient, which the bit-vector solver does
+		// not get through; those decimals are covered by the int-mode numeric harnesses)
+		rt.Assume(exp <= 0 || exp >= 16)
 		return SuDnum{Dnum: dnum.Raw(sign, coef, exp)}, m
 	case v28Str:
 		m.rank, m.s = 2, v28str(tag, maxLen)
@@ -575,7 +578,7 @@ func v28pair(a, b Value, ma, mb v28m) {
 
 // C28 all kinds: every pair of kinds with symbolic payloads.
 //
-//symgo:harness prop=C28 tier=quick shards=16 timeout=300 ttimeout=1700 bounds=pairs_of:boolean|small_int|SuInt64_(any)|finite_decimal_(any_16-digit_coefficient,any_exponent)|SuStr,SuConcat_(every_split),SuExcept_of_0..2_bytes_(thorough_0..3)|SuDate,SuTimestamp_(any_field_bits)|object_with_0..1_small-int_list_members outside=integer_against_decimal_(numeric_harnesses);longer_strings;nested_objects_(VerifC28Objects)
+//symgo:harness prop=C28 tier=quick shards=16 timeout=300 ttimeout=1700 bounds=pairs_of:boolean|small_int|SuInt64_(any)|finite_decimal_(any_16-digit_coefficient,exponent_<=0_or_>=16)|SuStr,SuConcat_(every_split),SuExcept_of_0..2_bytes_(thorough_0..3)|SuDate,SuTimestamp_(any_field_bits)|object_with_0..1_small-int_list_members outside=integer_against_decimal_and_decimals_with_exponent_1..15_(numeric_harnesses);hash_of_two_Equal_decimals_with_exponent_1..15;longer_strings;nested_objects_(VerifC28Objects)
 func VerifC28Pairs() {
 	maxLen := 2
 	if rt.Thorough() {
